@@ -498,6 +498,16 @@ func (e *Engine) checkEvents(s *Sys, class string) *Violation {
 		}
 	}
 	exp := append([]MEv{}, e.expEvents...)
+	if e.P.Listener == "restricted" && e.P.Profile != "C12" {
+		// the installed listener is restricted: it must receive exactly what the documented rule selects
+		var sel []MEv
+		for i := range exp {
+			if ruleSelects(&exp[i], e.P.ListenerS, e.P.ListenerC) {
+				sel = append(sel, exp[i])
+			}
+		}
+		exp = sel
+	}
 	// per-event checks at delivery time
 	for i := range got {
 		g := &got[i]
@@ -539,7 +549,7 @@ func (e *Engine) checkEvents(s *Sys, class string) *Violation {
 	for i := range got {
 		gl[i] = got[i].MEv
 	}
-	if s.Name == "primary" && e.P.EventReplica {
+	if s.Name == "primary" && e.P.EventReplica && e.P.Listener != "restricted" {
 		e.applyReplica(got)
 	}
 	if len(gl) != len(exp) {
@@ -606,7 +616,7 @@ func (e *Engine) applyReplica(got []Ev) {
 
 // checkReplica compares the event-built replica with the model (only while no deferred events are pending).
 func (e *Engine) checkReplica() *Violation {
-	if !e.listening() || !e.P.EventReplica || e.pendingDef > 0 {
+	if !e.listening() || !e.P.EventReplica || e.pendingDef > 0 || e.P.Listener == "restricted" {
 		return nil
 	}
 	if !e.replicaOK {
